@@ -18,6 +18,14 @@ Fixpoint unhex (s : string) : list N :=
   | _ => []
   end.
 
+Definition unhexs (l : list string) : list N := flat_map unhex l.
+
+(* long runs of one byte are written as [rep n b] *)
+Definition rep (n b : N) : list N := repeat b (N.to_nat n).
+
+(* content check of byte strings that are not printed: length and a polynomial hash *)
+Definition bhash (l : list N) : N := fold_left (fun h b => (h * 257 + b + 1) mod 4294967291) l 0.
+
 (* what the real decode of a call map said *)
 Inductive mf_obs :=
 | MfOkSame                      (* decoded, equal to the value that was encoded *)
@@ -30,21 +38,30 @@ Inductive tag_kind :=
 | TagCanonical (c : N)          (* the tag is the real encoder's tag of codec c *)
 | TagRaw (canon : list N).      (* arbitrary tag bytes; [canon] = real encoder's tag of the expected codec *)
 
+(* corruption of the inner data of an envelope (then re-serialized by the real code) *)
+Inductive corruption := CFlip (i bit : N) | CTruncate (k : N) | CBytes (b : list N).
+(* mutation of the serialized envelope itself *)
+Inductive env_mut := MCut (k : N) | MJunk (j : list N) | MFlip (pos bit : N).
+
+Definition ver_obs : Type := option (string * string).
+Definition full_obs : Type := option (string * string * N * N).      (* versions, inner length, inner hash *)
+
 Inductive case_t :=
 | WVarint (n : N) (enc rest : list N) (dec : varint_result)
     (* real tag of codec n, and the real parse of enc ++ rest *)
 | WVarintRaw (bs : list N) (dec : varint_result) (reenc : list N)
     (* real parse of arbitrary bytes; reenc = real tag of the parsed number ([] on error) *)
-| WMultiRT (codec : N) (bytes : list N) (obs : mf_obs)
-    (* Repr.serialize of a generated map, then Repr.deserialize *)
-| WMultiTag (expected : N) (tk : tag_kind) (tag payload : list N) (obs : mf_obs)
-    (* the serialized map with its tag replaced, then Repr.deserialize *)
-| WEnvelope (dv iv : string) (inner real : list N) (same : bool)
-    (* envelope {dv, iv, inner}.serialize() = real; same = try_from_slice(real) gives the three parts back *)
-| WVersions (dv iv : string) (bytes : list N) (obs : option (string * string))
-    (* envelope with (corrupted) inner data: try_get_versions *)
-| WVersionsRaw (bytes : list N) (obs : option (string * string))
-| WFullRaw (bytes : list N) (obs : option (string * string * list N))
+| WMulti (codec tag_len : N) (bytes : list N) (obs : mf_obs) (tags : list (tag_kind * list N * mf_obs))
+    (* Repr.serialize of a map = bytes (its first tag_len bytes are the tag), obs = Repr.deserialize bytes;
+       tags: the same payload under another tag, and what Repr.deserialize said *)
+| WEnv (dv iv : string) (inner_len : N) (real : list N) (same : bool)
+       (vers : list (corruption * list N * ver_obs))
+       (raws : list (env_mut * ver_obs * full_obs))
+    (* real = envelope {dv, iv, inner}.serialize() where inner = the last inner_len bytes of real;
+       same = try_from_slice(real) gives the three parts back;
+       vers: the envelope serialized with corrupted inner data (the bytes in front of the inner data are
+             listed), and what try_get_versions said;
+       raws: real itself cut / extended / bit-flipped, what try_get_versions and try_from_slice said *)
 | WDataRT (kind : string) (same : bool).
     (* InterpreterData / envelope of a real run re-encoded and decoded: equal after canonicalisation *)
 
@@ -83,16 +100,16 @@ Definition model_vs_obs (m : decode_result unit) (obs : mf_obs) : bool :=
       obs_eqb obs MfErrFormat || obs_eqb obs MfOkDifferent
   end.
 
-Definition ver_obs_ok (m : env_res (string * string)) (obs : option (string * string)) : bool :=
+Definition ver_obs_ok (m : env_res (string * string)) (obs : ver_obs) : bool :=
   match m, obs with
   | EOk (a, b), Some (c, d) => String.eqb a c && String.eqb b d
   | EErr, None => true
   | EUnsupported, _ => true
   | _, _ => false
   end.
-Definition full_obs_ok (m : env_res (string * string * list N)) (obs : option (string * string * list N)) : bool :=
+Definition full_obs_ok (m : env_res (string * string * list N)) (obs : full_obs) : bool :=
   match m, obs with
-  | EOk (a, b, i), Some (c, d, j) => String.eqb a c && String.eqb b d && bytes_eqb i j
+  | EOk (a, b, i), Some (c, d, len, h) => String.eqb a c && String.eqb b d && (lenN i =? len) && (bhash i =? h)
   | EErr, None => true
   | EUnsupported, _ => true
   | _, _ => false
@@ -100,6 +117,29 @@ Definition full_obs_ok (m : env_res (string * string * list N)) (obs : option (s
 
 Definition id_ver (s : string) : string := s.
 Definition some_ver (s : string) : option string := Some s.
+
+Definition lastn (n : N) (l : list N) : list N := skipn (length l - N.to_nat n) l.
+
+Fixpoint flip_at (pos : nat) (bit : N) (l : list N) : list N :=
+  match l, pos with
+  | [], _ => []
+  | b :: r, O => N.lxor b (2 ^ bit) :: r
+  | b :: r, S p => b :: flip_at p bit r
+  end.
+
+Definition corrupt (inner : list N) (c : corruption) : list N :=
+  match c with
+  | CFlip i bit => flip_at (N.to_nat i) bit inner
+  | CTruncate k => firstn (N.to_nat k) inner
+  | CBytes b => b
+  end.
+
+Definition mutate (real : list N) (m : env_mut) : list N :=
+  match m with
+  | MCut k => firstn (N.to_nat k) real
+  | MJunk j => real ++ j
+  | MFlip pos bit => flip_at (N.to_nat pos) bit real
+  end.
 
 (* correspondence: model = implementation *)
 Definition check_case (c : case_t) : bool :=
@@ -109,22 +149,24 @@ Definition check_case (c : case_t) : bool :=
   | WVarintRaw bs dec reenc =>
       vres_eqb (varint_decode_u32 bs) dec &&
       match dec with VOk n _ => opt_bytes_eqb (varint_encode_u32 n) (Some reenc) | VErr _ => true end
-  | WMultiRT codec bytes obs =>
-      match varint_decode_u32 bytes with
-      | VOk c payload =>
-          (c =? codec) &&
-          opt_bytes_eqb (encode_multiformat unit (fun _ => Some payload) codec tt) (Some bytes) &&
-          model_vs_obs (decode_multiformat unit (dec_for payload) codec bytes) obs
-      | VErr _ => false
-      end
-  | WMultiTag expected _ tag payload obs =>
-      model_vs_obs (decode_multiformat unit (dec_for payload) expected (tag ++ payload)) obs
-  | WEnvelope dv iv inner real same =>
+  | WMulti codec tag_len bytes obs tags =>
+      let payload := skipn (N.to_nat tag_len) bytes in
+      opt_bytes_eqb (encode_multiformat unit (fun _ => Some payload) codec tt) (Some bytes) &&
+      model_vs_obs (decode_multiformat unit (dec_for payload) codec bytes) obs &&
+      forallb (fun t => match t with (_, tag, o) =>
+                 model_vs_obs (decode_multiformat unit (dec_for payload) codec (tag ++ payload)) o end) tags
+  | WEnv dv iv inner_len real same vers raws =>
+      let inner := lastn inner_len real in
       opt_bytes_eqb (envelope_serialize string id_ver dv iv inner) (Some real) &&
-      full_obs_ok (envelope_try_from_slice string some_ver real) (Some (dv, iv, inner)) && same
-  | WVersions _ _ bytes obs => ver_obs_ok (try_get_versions string some_ver bytes) obs
-  | WVersionsRaw bytes obs => ver_obs_ok (try_get_versions string some_ver bytes) obs
-  | WFullRaw bytes obs => full_obs_ok (envelope_try_from_slice string some_ver bytes) obs
+      full_obs_ok (envelope_try_from_slice string some_ver real) (Some (dv, iv, inner_len, bhash inner)) && same &&
+      forallb (fun v => match v with (cr, prefix, o) =>
+                 let bad := corrupt inner cr in
+                 opt_bytes_eqb (envelope_serialize string id_ver dv iv bad) (Some (prefix ++ bad)) &&
+                 ver_obs_ok (try_get_versions string some_ver (prefix ++ bad)) o end) vers &&
+      forallb (fun r => match r with (m, vo, fo) =>
+                 let b := mutate real m in
+                 ver_obs_ok (try_get_versions string some_ver b) vo &&
+                 full_obs_ok (envelope_try_from_slice string some_ver b) fo end) raws
   | WDataRT _ same => same
   end.
 
@@ -133,22 +175,24 @@ Definition check_case (c : case_t) : bool :=
    - a payload under the tag of another codec fails with the codec error; nothing is ever misread;
      a raw tag is accepted only if it is the tag the encoder writes for the expected codec;
    - the versions of an envelope are readable whatever its inner data is. *)
+Definition tag_oracle (expected : N) (t : tag_kind * list N * mf_obs) : bool :=
+  match t with
+  | (TagCanonical c', _, obs) => if c' =? expected then obs_eqb obs MfOkSame else obs_eqb obs (MfErrCodec c')
+  | (TagRaw canon, tag, obs) =>
+      negb (obs_eqb obs MfOkDifferent) && (negb (obs_eqb obs MfOkSame) || bytes_eqb tag canon)
+  end.
+
 Definition c27_oracle (c : case_t) : bool :=
   match c with
   | WVarint n enc rest dec => vres_eqb dec (VOk n rest)
   | WVarintRaw bs dec reenc =>
       match dec with VOk n rest => bytes_eqb bs (reenc ++ rest) | VErr _ => true end
-  | WMultiRT _ _ obs => obs_eqb obs MfOkSame
-  | WMultiTag expected tk tag _ obs =>
-      match tk with
-      | TagCanonical c' => if c' =? expected then obs_eqb obs MfOkSame else obs_eqb obs (MfErrCodec c')
-      | TagRaw canon =>
-          negb (obs_eqb obs MfOkDifferent) && (negb (obs_eqb obs MfOkSame) || bytes_eqb tag canon)
-      end
-  | WEnvelope _ _ _ _ same => same
-  | WVersions dv iv _ obs =>
-      match obs with Some (a, b) => String.eqb a dv && String.eqb b iv | None => false end
-  | WVersionsRaw _ _ => true
-  | WFullRaw _ _ => true
+  | WMulti codec _ _ obs tags => obs_eqb obs MfOkSame && forallb (tag_oracle codec) tags
+  | WEnv dv iv _ _ same vers _ =>
+      same &&
+      forallb (fun v => match v with
+                        | (_, _, Some (a, b)) => String.eqb a dv && String.eqb b iv
+                        | (_, _, None) => false
+                        end) vers
   | WDataRT _ same => same
   end.
